@@ -347,6 +347,7 @@ static void do_free(const Op& op) {
   // a block must be released within its own sub-process' threads? (no: any thread may free); verify contents first
   block_verify(b, "at free");
   model_remove(b);
+  if (b->heap == -1) H.orphan_frees++;
   if (b->orphan_kind >= 2 && b->prog == T->prog) snprintf(T->note, sizeof T->note, " while thread %d releases block #%llu whose page was orphaned by mi_heap_delete of a %s heap", T->prog, (unsigned long long)b->id, b->orphan_kind == 2 ? "tagged" : "arena-bound");
   H.frees++;
   void* p = b->p;
